@@ -761,7 +761,16 @@ func (in *Inst) CloseOnly() error {
 	if in.DB == nil || in.Poisoned != "" {
 		return nil
 	}
-	err := in.DB.Close()
+	var err error
+	func() {
+		defer func() {
+			if r := recover(); r != nil {
+				err = fmt.Errorf("panic in Close: %v", r)
+				in.Poisoned = err.Error()
+			}
+		}()
+		err = in.DB.Close()
+	}()
 	in.DB = nil
 	return err
 }
